@@ -130,7 +130,7 @@ func Plans() map[string]*Plan {
 				ioConcPart("C04", 8000, 800000, p, RunOpts{}),
 				ioEnumPart("C04", 150, 15000),
 			},
-			Rule:       "S-CONC/S-TIME: 2-4 simulated processes, 2-6 ops each, interleaved at single filesystem calls by PCT/sticky/uniform schedulers with window biases; non-trivial = at least 3 schedule segments and at least 2 commits; distinct = distinct hash of the shared-path event sequence projected to (task, call kind, path class, result)",
+			Rule:       "S-CONC/S-TIME: 2-4 simulated processes, 2-6 ops each, interleaved at single filesystem calls by PCT/sticky/uniform schedulers with window biases; S-IOERR-CONC: the same with 1-3 injected I/O errors (EIO, ENOSPC with a short write, EMFILE, EACCES, EDQUOT at single filesystem calls, addressed by step or by call kind); S-IOERR: every filesystem call of a sampled target operation fails once (one run per call), the process goes on using its handle; non-trivial = at least 3 schedule segments and at least 2 commits; distinct = distinct hash of the shared-path event sequence projected to (task, call kind, path class, result)",
 			Nontrivial: concNontrivial}
 	}
 	// ---- C05
@@ -149,7 +149,7 @@ func Plans() map[string]*Plan {
 				ioConcPart("C05", 6000, 600000, p, RunOpts{}),
 				concPart("C05", "S-CONC/compaction-storm", 8000, 800000, stormProfile(), RunOpts{}),
 			},
-			Rule:       "S-CONC, S-CRASH-RAND and S-CRASH-ENUM (every crash point of sampled operation instances, as in C06); list-integrity checked after every mutating filesystem call of every process and after every crash; non-trivial = >=3 schedule segments and >=2 list versions; distinct = distinct projected event-sequence hash",
+			Rule:       "S-CONC, S-CONC/compaction-storm (3-4 processes compacting short ranges of a 6-14-table stack side by side), S-CRASH-RAND and S-CRASH-ENUM (every crash point of sampled operation instances, as in C06); S-IOERR-CONC: the same with 1-3 injected I/O errors (EIO, ENOSPC with a short write, EMFILE, EACCES, EDQUOT at single filesystem calls, addressed by step or by call kind); S-IOERR: every filesystem call of a sampled target operation fails once (one run per call), the process goes on using its handle; list-integrity checked after every mutating filesystem call of every process and after every crash; non-trivial = >=3 schedule segments and >=2 list versions; distinct = distinct projected event-sequence hash",
 			Nontrivial: concNontrivial}
 	}
 	// ---- C06
@@ -197,7 +197,7 @@ func Plans() map[string]*Plan {
 				ioConcPart("C08", 8000, 800000, p, RunOpts{}),
 				concPart("C08", "S-CONC/compaction-storm", 12000, 1200000, stormProfile(), RunOpts{}),
 			},
-			Rule: "lock-heavy S-CONC/S-CRASH-RAND (compactions racing Adds and each other); lock-tenure monitor on every create/remove/rename of *.lock; non-trivial = a lock acquisition failed with EEXIST or another process ran inside a compaction's unlocked window; distinct = distinct projected event-sequence hash",
+			Rule: "lock-heavy S-CONC/S-CRASH-RAND (compactions racing Adds and each other), S-CONC/compaction-storm (3-4 processes compacting short ranges of a deep stack side by side); S-IOERR-CONC: the same with 1-3 injected I/O errors (EIO, ENOSPC with a short write, EMFILE, EACCES, EDQUOT at single filesystem calls, addressed by step or by call kind); S-IOERR: every filesystem call of a sampled target operation fails once (one run per call), the process goes on using its handle; lock-tenure monitor on every create/remove/rename of *.lock; non-trivial = a lock acquisition failed with EEXIST or another process ran inside a compaction's unlocked window; distinct = distinct projected event-sequence hash",
 			Nontrivial: func(r *RunResult) bool {
 				return probeAny(r, "lock-contention-listlock", "lock-contention-tablelock", "W1-other-task-ran")
 			}}
@@ -247,7 +247,7 @@ func Plans() map[string]*Plan {
 					return q
 				}(), RunOpts{}),
 			},
-			Rule: "reader/reloader processes against 1-3 churn processes (Add, compactions), every ReadAt/open a scheduling point; non-trivial = a reload hit a vanished table or a read ran through a handle that was stale; distinct = distinct projected event-sequence hash",
+			Rule: "reader/reloader processes against 1-3 churn processes (Add, compactions), every ReadAt/open a scheduling point; S-CONC/compaction-storm with a reader that refreshes through failed Adds; S-IOERR-CONC: the same with 1-3 injected I/O errors (EIO, ENOSPC with a short write, EMFILE, EACCES, EDQUOT at single filesystem calls, addressed by step or by call kind); S-IOERR: every filesystem call of a sampled target operation fails once (one run per call), the process goes on using its handle; non-trivial = a reload hit a vanished table or a read ran through a handle that was stale; distinct = distinct projected event-sequence hash",
 			Nontrivial: func(r *RunResult) bool {
 				return probeAny(r, "reload-enoent", "op-through-stale-handle") && len(r.Segs) > 2
 			}}
@@ -324,7 +324,7 @@ func Plans() map[string]*Plan {
 				ioConcPart("C16", 6000, 600000, p, RunOpts{}),
 				concPart("C16", "S-CONC/compaction-storm", 8000, 800000, stormProfile(), RunOpts{}),
 			},
-			Rule: "S-CONC with failure paths provoked (contended Adds, rejected transactions, lost lock races, empty stacks, Clean/Close in all states), S-CRASH-RAND, S-TURN; residue monitors at every idle point and at quiescence; non-trivial = some operation failed or lost a lock race; distinct = distinct projected event-sequence hash",
+			Rule: "S-CONC with failure paths provoked (contended Adds, rejected transactions, lost lock races, empty stacks, Clean/Close in all states), S-CONC/compaction-storm, S-CRASH-RAND, S-TURN; S-IOERR-CONC: the same with 1-3 injected I/O errors (EIO, ENOSPC with a short write, EMFILE, EACCES, EDQUOT at single filesystem calls, addressed by step or by call kind); S-IOERR: every filesystem call of a sampled target operation fails once (one run per call), the process goes on using its handle; residue monitors at every idle point and at quiescence; non-trivial = some operation failed or lost a lock race; distinct = distinct projected event-sequence hash",
 			Nontrivial: func(r *RunResult) bool {
 				for k, n := range r.CallCounts {
 					if n > 0 && (hasSuffix(k, ":lockfail") || hasSuffix(k, ":error")) {
